@@ -17,6 +17,7 @@ import (
 	"image/color"
 	"math"
 	"os"
+	"path/filepath"
 	"regexp"
 	"sort"
 	"strconv"
@@ -43,6 +44,7 @@ func run(c *hc.Ctx) {
 	}
 	if c.Only == "" || c.Only == "parse" {
 		genPARSE(c, 2*n)
+		genPSTRM(c, n)
 	}
 	if c.Only == "" || c.Only == "hist" {
 		genHIST(c, 3*n)
@@ -136,7 +138,7 @@ func genSTR(c *hc.Ctx, n int) {
 var runePools = [][]rune{
 	[]rune("abcXYZ 019()\\"),
 	[]rune("éüñçß¡¿©\u00a0\u00ad\u0085ÿ"), // Latin-1 incl. NO-BREAK SPACE, SOFT HYPHEN, a C1 control
-	[]rune("čĊČďĎč഍ു"), // UTF-16 units containing the byte 0x0D
+	[]rune("čĊČďĎč഍ു"),                    // UTF-16 units containing the byte 0x0D
 	[]rune("ЖжЯяЩ"),
 	[]rune("漢字かな한"),
 	[]rune("😀🎉𝔘𐍈"),
@@ -360,6 +362,48 @@ func hasStream(v pdf.VerifVal) bool {
 		}
 	}
 	return false
+}
+
+// PSTRM: stream values through the real writeVal, read back by the Lean stream-object parser of
+// C13.stream_roundtrip: dictionary with the /Length the writer set, and exactly the (filtered) data.
+func genPSTRM(c *hc.Ctx, n int) {
+	g := &valGen{c: c, refN: 20, quiet: true}
+	for it := 0; it < n; it++ {
+		v := g.gen(3)
+		if v.Kind != 'S' {
+			it--
+			continue
+		}
+		nested := false
+		for _, x := range v.Vals {
+			nested = nested || hasStream(x)
+		}
+		if nested {
+			it--
+			continue
+		}
+		body := filtered(v)
+		w := pdf.VerifNewWriter()
+		start := w.Pos()
+		if msg := hc.Try(func() { w.WriteVal(v) }); msg != "" {
+			c.Fail("panic:writeVal", msg, map[string]any{"value": showVal(v)})
+			continue
+		}
+		out := w.Bytes()[start:]
+		d := pdf.VerifVal{Kind: 'd'}
+		for i, k := range v.Keys {
+			if k != "Length" {
+				d.Keys = append(d.Keys, k)
+				d.Vals = append(d.Vals, v.Vals[i])
+			}
+		}
+		d.Keys = append(d.Keys, "Length")
+		d.Vals = append(d.Vals, pdf.VerifVal{Kind: 'i', I: len(body)})
+		c.Case("PSTRM "+hx(out), "=", showVal(d)+" body="+hx(body)+" rest=0a")
+		c.Evals++
+		c.Distinct(string(out))
+		c.Count("pstrm:cases")
+	}
 }
 
 func genPARSE(c *hc.Ctx, n int) {
@@ -803,6 +847,25 @@ func histAttempt(c *hc.Ctx) bool {
 	}
 	withPanics := c.Chance(0.08)
 	nops := 2 + c.Intn(24)
+	if c.Tier == "thorough" && c.Chance(0.3) {
+		nops = 25 + c.Intn(60) // long histories: many pages, many reserved fonts, name counters beyond 9
+	}
+	pageLen := func() int {
+		if !hasPage {
+			return -1
+		}
+		return len(w.PageBytes())
+	}
+	branch := func(op string, before int) {
+		if before < 0 {
+			return
+		}
+		if len(w.PageBytes()) == before {
+			c.Count("branch:" + op + "-unchanged")
+		} else {
+			c.Count("branch:" + op + "-emits")
+		}
+	}
 	panicked := ""
 	flushTable := func() {
 		if hasPage && compress {
@@ -854,7 +917,13 @@ func histAttempt(c *hc.Ctx) bool {
 		case k == 6 && withFonts:
 			id := fontID()
 			vert := c.Chance(0.3)
+			nb := len(w.Offsets())
 			ref := w.GetFont(histFonts[id], vert)
+			if len(w.Offsets()) > nb {
+				c.Count("branch:getfont-reserves")
+			} else {
+				c.Count("branch:getfont-cached")
+			}
 			if !seenRef[ref] {
 				seenRef[ref] = true
 				fontRefs = append(fontRefs, ref)
@@ -895,10 +964,23 @@ func histAttempt(c *hc.Ctx) bool {
 				gi := c.Intn(len(grads))
 				stroke := c.Chance(0.4)
 				paint := canvas.Paint{Gradient: grads[gi]}
+				b0 := pageLen()
 				if stroke {
 					do(func() { w.SetStrokePaint(paint) })
 				} else {
 					do(func() { w.SetFillPaint(paint) })
+				}
+				branch("setgradient", b0)
+				if hasPage {
+					known := false
+					for _, k := range curKeys {
+						known = known || k == gradKeys[gi]
+					}
+					if known {
+						c.Count("branch:getpattern-name-reused-or-paint-unchanged")
+					} else {
+						c.Count("branch:getpattern-new-name")
+					}
 				}
 				ops = append(ops, "SG", hc.B(stroke), hx([]byte(gradKeys[gi])), hx([]byte(pdf.VerifDec(1.0))))
 				if hasPage {
@@ -939,11 +1021,13 @@ func histAttempt(c *hc.Ctx) bool {
 					c.Fail("hist:drawimage-shape", "unexpected DrawImage emission", map[string]any{"emitted": string(d)})
 					return true
 				}
-				clip, rest := d[:i+5], d[i+5:j]
-				if bytes.HasPrefix(rest, []byte(" /A")) {
-					k := bytes.Index(rest, []byte(" gs"))
-					rest = rest[k+3:]
+				// emission: [" /A<k> gs"] " q … h W n" " a b c d e f" " cm /Im<k> Do Q"
+				q0 := bytes.Index(d, []byte(" q "))
+				if q0 < 0 || q0 > i {
+					c.Fail("hist:drawimage-shape", "unexpected DrawImage emission", map[string]any{"emitted": string(d)})
+					return true
 				}
+				clip, rest := d[q0:i+5], d[i+5:j]
 				ops = append(ops, "DI", strconv.Itoa(id), hx(clip), hx(rest), hx([]byte(pdf.VerifDec(1.0))))
 				if !imgSeen[id] {
 					imgSeen[id] = true
@@ -983,7 +1067,13 @@ func histAttempt(c *hc.Ctx) bool {
 				c.Count("hist:op-pagewrite")
 			case 2, 3:
 				a := alphas[c.Intn(len(alphas))]
+				b0, g0 := pageLen(), 0
+				if hasPage {
+					g0 = bytes.Count(w.PageBytes(), []byte(" gs"))
+				}
 				do(func() { w.SetAlpha(a) })
+				branch("setalpha", b0)
+				_ = g0
 				ops = append(ops, "SA", hc.H(a), hx([]byte(pdf.VerifDec(a))))
 				c.Count("hist:op-setalpha")
 			case 4:
@@ -1028,7 +1118,16 @@ func histAttempt(c *hc.Ctx) bool {
 				size := []float64{12, 10.5, 12, 8}[c.Intn(4)]
 				vert := c.Chance(0.25)
 				before := len(w.Offsets())
+				b0 := pageLen()
 				do(func() { w.SetFont(histFonts[id], size, vert) })
+				branch("setfont", b0)
+				if panicked == "" {
+					if len(w.Offsets()) > before {
+						c.Count("branch:getfont-reserves")
+					} else {
+						c.Count("branch:getfont-cached")
+					}
+				}
 				if panicked == "" {
 					offs := w.Offsets()
 					if len(offs) > before {
@@ -1245,7 +1344,32 @@ func judgeTable(c *hc.Ctx, out []byte, offs []int, ops []string) {
 // ---------------------------------------------------------------------------------------------
 // DOC
 
+// corpusDocs replays the minimised document recipes of past failures (corpus/C13/recipe-*.json) first.
+func corpusDocs(c *hc.Ctx) {
+	spec := os.Getenv("VERIF_SPEC") // <root>/tools/gotolean/spec.json
+	if spec == "" {
+		return
+	}
+	root := filepath.Dir(filepath.Dir(filepath.Dir(spec)))
+	files, _ := filepath.Glob(filepath.Join(root, "corpus", "C13", "recipe-*.json"))
+	sort.Strings(files)
+	for _, f := range files {
+		b, err := os.ReadFile(f)
+		if err != nil {
+			continue
+		}
+		var r DocRecipe
+		if json.Unmarshal(b, &r) != nil {
+			c.Count("doc:corpus-unreadable")
+			continue
+		}
+		c.Count("doc:corpus")
+		checkDoc(c, &r)
+	}
+}
+
 func genDOC(c *hc.Ctx, n int) {
+	corpusDocs(c)
 	for it := 0; it < n; it++ {
 		avoid := map[string]bool{}
 		// explicit strokes of curved paths make documents of 100 kB and more (and reach the recorded
